@@ -30,7 +30,7 @@ theorem forall_range {P : Nat → Prop} [DecidablePred P] (n : Nat)
   have := List.all_eq_true.mp h x (List.mem_range.mpr hx)
   exact of_decide_eq_true this
 
-/-! ## `From<Format> for PixelInfo` never panics and gives the pinned layout -/
+/-! ## `From<Format> for PixelInfo` never panics and gives the layout of the format definition -/
 
 theorem formatPixelInfoP_eq : ∀ f : Format, formatPixelInfoP f = some f.row.px :=
   forall_format (by decide +kernel)
@@ -46,20 +46,29 @@ def dx10Agrees (code alpha : Nat) : Bool :=
     | some px, some (.ok p) => p == px
     | _, _ => false
 
+/-- every accepted code fits the `u8` behind `DxgiFormat` (complete evaluation of the translated runs) -/
 theorem dxgiValid_lt {v : Nat} (h : dxgiValid v = true) : v < 256 := by
   unfold dxgiValid at h
-  simp only [Bool.or_eq_true, Bool.and_eq_true, decide_eq_true_eq, beq_iff_eq] at h
+  rw [List.any_eq_true] at h
+  obtain ⟨r, hr, h1⟩ := h
+  have hb : (SrcTables.dxgiValidRanges.all fun r => decide (r.2 < 256)) = true := by decide
+  have h2 := List.all_eq_true.mp hb r hr
+  simp only [Bool.and_eq_true, decide_eq_true_eq] at h1 h2
   omega
 
 theorem dx10Agrees_all : ∀ code, code < 256 → ∀ alpha, alpha < 5 →
     (dxgiValid code = true → dx10Agrees code alpha = true) :=
   forall_range 256 (by decide +kernel)
 
-/-- the range pattern of `TryFrom<u32> for DxgiFormat` and the 162-row table describe the same codes -/
+/-- the range pattern of `TryFrom<u32> for DxgiFormat` and the table of named constants describe the same codes -/
 theorem dxgiValid_iff_row : ∀ code, code < 256 → (dxgiValid code = (dxgiRow? code).isSome) :=
   forall_range 256 (by decide +kernel)
 
-theorem dxgiTable_length : dxgiTable.length = 162 := by decide +kernel
+/-- every named constant names a different code -/
+theorem dxgiTable_nodup : (dxgiTable.map (·.code)).Nodup := by decide +kernel
+
+/-- the two copies of the format enumeration correspond -/
+theorem Format.ofH_toH : ∀ f : Format, Format.ofH f.toH = f := forall_format (by decide)
 
 /-! ## Mask headers -/
 
@@ -85,7 +94,8 @@ theorem matches_bitCount {row : MaskRow} {pf : MaskPF} (h : row.matches pf = tru
   simp only [Bool.and_eq_true, beq_iff_eq] at h
   exact h.1.1.1.1.2
 
-/-- every mask row carries the bit count of its format's layout -/
+/-- table obligation of `C19.pixelinfo_agrees` (mask headers): every row of `KNOWN_PIXEL_FORMATS` carries the bit count
+of its format's layout — complete evaluation over the translated rows (seeded C09h fails the build HERE) -/
 theorem maskRows_bitCount : ∀ row, row ∈ maskRows →
     formatPixelInfoP row.fmt = some (.fixed ((row.pat.bitCount % 256) / 8)) := by
   have h : maskRows.all (fun row =>
